@@ -6,7 +6,7 @@
    the model is unique and [cden] computes it; [vden] is the TRIPOLI-4 reading of a
    volume table. *)
 From Coq Require Import List ZArith NArith Bool Reals Permutation Lia.
-From T4V Require Import Base.Scalar C13.Model C13.Spec C13.Proofs C13.ProofsDedup C13.ProofsFill.
+From T4V Require Import Base.Scalar C13.Model C13.Spec C13.Proofs C13.ProofsDedup C13.ProofsFill C13.ProofsVol.
 Import ListNotations.
 Open Scope Z_scope.
 
@@ -37,6 +37,17 @@ Print Assumptions C13_dedup_merges_tested.
 Theorem C13_desc_eqb_sound : forall a b : desc R, desc_eqb RS a b = true -> a = b.
 Proof. exact desc_eqb_RS. Qed.
 Print Assumptions C13_desc_eqb_sound.
+
+(* SurfaceT4.__hash__ is consistent with __eq__: the hash is the tuple hash [mix]
+   of exactly the components __eq__ compares, so for any element hash [h] that
+   respects == (Python: hash(0.0) = hash(-0.0), hash(1) = hash(1.0)) equal
+   surfaces hash alike - the dictionary of remove_duplicate_surfaces may be read
+   as "first stored key equal to the probe" *)
+Theorem C13_hash_consistent : forall T (S : Scalar T) (h : T -> Z) (mix : list Z -> Z),
+  (forall x y, seqb S x y = true -> h x = h y) ->
+  forall a b, desc_eqb S a b = true -> desc_hash h mix a = desc_hash h mix b.
+Proof. exact @desc_hash_consistent. Qed.
+Print Assumptions C13_hash_consistent.
 
 (* which number survives: never a larger one; at R the smallest number that
    carries the descriptor; every input number is renumbered *)
@@ -126,6 +137,55 @@ Example C13_example_helper_merge :
   exists out, finish ZS true helper_surfs helper_volus 5 6 = Ok out.
 Proof. exact helper_merge_example. Qed.
 
+(* ---- the written tables, --skip-deduplication off vs on ---- *)
+(* vmodel sigma rho t: rho gives every VOLU line of t its value (EQUA, then UNION /
+   INTE with the values of the volumes it names).  remove_empty_volumes keeps the
+   denotation: every rho of its input is a rho of its output, kept volumes keep
+   FICTIVE flag and provenance, and whatever it dropped is false under rho
+   (needs only that the two helper planes are consistent: x > 1 implies x > -1) *)
+Theorem C13_remove_empty_sound : forall (sigma rho : Z -> bool) u0 u1,
+  (sigma u0 = true -> sigma u1 = true) ->
+  forall dic dic', remove_empty_volumes dic u0 u1 = Ok dic' ->
+  NoDup (map fst dic) -> vmodel sigma rho dic ->
+  NoDup (map fst dic') /\ vmodel sigma rho dic' /\ tracks rho dic dic'.
+Proof. exact remove_empty_sound. Qed.
+Print Assumptions C13_remove_empty_sound.
+
+(* one run of the tail of convertMCNPGeometry + the SURF lines of the writer *)
+Theorem C13_finish_sound : forall (sense : desc R -> bool) skip surfs volus u0 u1 s' v3 w rho,
+  NoDup (map fst surfs) -> NoDup (map fst volus) ->
+  (sense_of sense surfs u0 = true -> sense_of sense surfs u1 = true) ->
+  finish RS skip surfs volus u0 u1 = Ok (s', v3, w) ->
+  vmodel (sense_of sense surfs) rho volus ->
+  vmodel (sense_of sense s') rho v3 /\
+  (forall k v, lookup k v3 = Some v ->
+     exists v0, lookup k volus = Some v0 /\ fictive v = fictive v0 /\ vorigin v = vorigin v0) /\
+  (forall k v0, lookup k volus = Some v0 -> lookup k v3 = None -> rho k = false \/ fictive v0 = true) /\
+  (forall s, In s w -> lookup s s' <> None).
+Proof. exact finish_sound. Qed.
+Print Assumptions C13_finish_sound.
+
+(* the WRITTEN tables with and without de-duplication: the same denotation rho
+   fits both, and a point (sense assignment) has the same owners - written,
+   non-FICTIVE volume number k with provenance [origin] and rho k = true; the
+   composition is attached to the volume number *)
+Theorem C13_written_same_dedup : forall (sense : desc R -> bool) surfs volus u0 u1 sa va wa sb vb wb rho,
+  NoDup (map fst surfs) -> NoDup (map fst volus) ->
+  (sense_of sense surfs u0 = true -> sense_of sense surfs u1 = true) ->
+  vmodel (sense_of sense surfs) rho volus ->
+  finish RS false surfs volus u0 u1 = Ok (sa, va, wa) ->
+  finish RS true surfs volus u0 u1 = Ok (sb, vb, wb) ->
+  vmodel (sense_of sense sa) rho va /\ vmodel (sense_of sense sb) rho vb /\
+  forall k origin, owner rho va k origin <-> owner rho vb k origin.
+Proof. exact written_same_dedup. Qed.
+Print Assumptions C13_written_same_dedup.
+
+(* the fuelled reading vden used above agrees with every denotation *)
+Theorem C13_vden_model : forall sigma rho dic, vmodel sigma rho dic ->
+  forall fuel k b, vden fuel sigma dic k = Some b -> b = rho k.
+Proof. exact vden_model. Qed.
+Print Assumptions C13_vden_model.
+
 (* a second way in which the default options fail where --skip-deduplication
    succeeds: every volume becomes patently empty after de-duplication (the only
    live cell is  -1 2  with 1, 2 both PX 2) and the writer raises ValueError on
@@ -158,6 +218,13 @@ Theorem C13_inline_score_den : forall T (S : Scalar T) (rank : Z -> nat) (sigma 
   (forall k, lookup k dic <> None -> cden rank sigma dic' k = cden rank sigma dic k).
 Proof. exact @inline_score_den. Qed.
 Print Assumptions C13_inline_score_den.
+
+(* find_occurrences (the input of the score): occurrences[sub] lists only cells
+   whose geometry mentions sub *)
+Theorem C13_find_occurrences_sound : forall dic occ, find_occurrences dic = Ok occ ->
+  forall sub l, lookup sub occ = Some l -> forall key, In key l -> mentions dic key sub.
+Proof. exact find_occurrences_sound. Qed.
+Print Assumptions C13_find_occurrences_sound.
 
 (* inlining does what the option says: afterwards no cell mentions a cell of
    to_inline (given that no geometry is a bare CellRef, as pot_fill guarantees) *)
